@@ -161,33 +161,40 @@ Section Lemmas.
   Lemma release_linked front fp : h_prev front = fp -> release front fp = front.
   Proof. intros H. unfold release. destruct front as [i pr b c]. simpl in *. subst. now rewrite Z.eqb_refl. Qed.
 
-  Lemma pop_loop_spec all : forall buf fp last, linked fp buf last ->
-    match pop_loop (p_buffer p) all buf fp with
-    | (released, buf', fp') =>
-      released ++ buf' = buf /\ linked fp released fp' /\ linked fp' buf' last /\
-      (all = true -> buf' = []) /\
-      (all = false -> zlen buf' <= Z.max (p_buffer p) 0 /\ (released <> [] -> zlen buf' = p_buffer p))
-    end.
+  Lemma linked_split : forall k buf fp last, linked fp buf last ->
+    exists mid, linked fp (firstn k buf) mid /\ linked mid (skipn k buf) last.
+  Proof.
+    induction k as [|k IH]; intros buf fp last Hl.
+    - exists fp. simpl. split; [reflexivity | exact Hl].
+    - destruct buf as [|h t]; simpl in *.
+      + exists fp. auto.
+      + destruct Hl as [H1 H2]. destruct (IH t (h_id h) last H2) as [mid [A B]]. exists mid. auto.
+  Qed.
+
+  Lemma pop_all : forall buf fp last, linked fp buf last -> pop_loop (p_buffer p) true buf fp = (buf, [], last).
+  Proof.
+    induction buf as [|front rest IH]; intros fp last Hl; simpl in *.
+    - now subst.
+    - destruct Hl as [Hp Hl]. rewrite orb_true_r. rewrite (release_linked front fp Hp).
+      rewrite (IH (h_id front) last Hl). reflexivity.
+  Qed.
+
+  Lemma pop_some : forall buf fp last, linked fp buf last ->
+    exists k fp', pop_loop (p_buffer p) false buf fp = (firstn k buf, skipn k buf, fp') /\
+      linked fp (firstn k buf) fp' /\ linked fp' (skipn k buf) last /\
+      (k = 0%nat -> zlen buf <= p_buffer p) /\ (k <> 0%nat -> zlen (skipn k buf) = p_buffer p).
   Proof.
     induction buf as [|front rest IH]; intros fp last Hl.
-    - simpl. repeat split; auto; try reflexivity; unfold zlen; simpl; try lia. intros _ H. contradiction.
-    - cbn [pop_loop]. destruct Hl as [Hp Hl].
-      destruct ((p_buffer p <? Z.of_nat (length (front :: rest))) || all) eqn:Ec.
+    - exists 0%nat, fp. simpl. repeat split; auto. intros H. contradiction.
+    - cbn [pop_loop]. destruct Hl as [Hp Hl]. rewrite orb_false_r.
+      destruct (p_buffer p <? Z.of_nat (length (front :: rest))) eqn:Ec.
       + rewrite (release_linked front fp Hp).
-        specialize (IH (h_id front) last Hl).
-        destruct (pop_loop (p_buffer p) all rest (h_id front)) as [[released buf'] fp'].
-        destruct IH as (I1 & I2 & I3 & I4 & I5).
-        split; [simpl; now rewrite I1|]. split; [split; assumption|]. split; [exact I3|]. split; [exact I4|].
-        intros Ha. destruct (I5 Ha) as [J1 J2]. split; [exact J1|]. intros _.
-        destruct released as [|r0 rl]; [|apply J2; discriminate].
-        (* nothing more was released: the loop condition failed on [rest] or rest is empty *)
-        simpl in I1. subst buf'. rewrite Ha, orb_false_r in Ec. apply Z.ltb_lt in Ec.
-        destruct rest as [|x rest'].
-        * unfold zlen. simpl in *. lia.
-        * cbn [pop_loop] in *. unfold zlen.
-          admit_pop.
-      + apply orb_false_iff in Ec. destruct Ec as [Ec Ea]. apply Z.ltb_ge in Ec.
-        split; [reflexivity|]. split; [reflexivity|]. split; [split; assumption|]. split; [congruence|].
-        intros _. split; [unfold zlen; lia | intros H; contradiction].
-  Admitted_pop.
+        destruct (IH (h_id front) last Hl) as (k & fp' & E & A & B & C & D). rewrite E.
+        exists (Datatypes.S k), fp'. simpl. split; [reflexivity|]. split; [split; assumption|]. split; [exact B|].
+        split; [discriminate|]. intros _. apply Z.ltb_lt in Ec.
+        destruct k as [|k']; [|apply D; discriminate].
+        specialize (C eq_refl). simpl. unfold zlen in *. simpl length in Ec. lia.
+      + apply Z.ltb_ge in Ec. exists 0%nat, fp. simpl. split; [reflexivity|]. split; [reflexivity|].
+        split; [split; assumption|]. split; [intros _; unfold zlen; exact Ec | intros H; contradiction].
+  Qed.
 End Lemmas.
